@@ -693,3 +693,91 @@ func mustPassLifted(p *core.Program, fn *ssa.Function, sink *ssa.BasicBlock, ato
 	}
 	return true, total, nil
 }
+
+// thresholdAgreement: a named constant of the module that is used as the bound of ordered comparisons is compared the
+// same way at every site (x >= K everywhere, not x > K at one of them): the sites implement one notion ("high risk")
+// and a boundary value must fall on the same side in all of them. Reports the minority sites under rule.
+func thresholdAgreement(r *core.Run, rule string, rels ...string) {
+	p := r.P
+	type site struct {
+		pos token.Pos
+		op  string
+		fn  string
+	}
+	sites := map[types.Object][]site{}
+	for _, pkg := range p.Prod {
+		match := false
+		for _, rel := range rels {
+			if strings.HasSuffix(pkg.PkgPath, rel) {
+				match = true
+			}
+		}
+		if !match {
+			continue
+		}
+		for _, f := range pkg.Syntax {
+			if strings.HasSuffix(p.Fset.Position(f.Pos()).Filename, "_test.go") {
+				continue
+			}
+			ast.Inspect(f, func(nd ast.Node) bool {
+				be, ok := nd.(*ast.BinaryExpr)
+				if !ok {
+					return true
+				}
+				mirror := map[token.Token]token.Token{token.LSS: token.GTR, token.GTR: token.LSS, token.LEQ: token.GEQ, token.GEQ: token.LEQ}
+				if _, isOrd := mirror[be.Op]; !isOrd {
+					return true
+				}
+				constOf := func(e ast.Expr) types.Object {
+					switch x := ast.Unparen(e).(type) {
+					case *ast.Ident:
+						if c, ok := pkg.TypesInfo.Uses[x].(*types.Const); ok && c.Pkg() != nil && strings.HasPrefix(c.Pkg().Path(), p.ModPath) {
+							return c
+						}
+					case *ast.SelectorExpr:
+						if c, ok := pkg.TypesInfo.Uses[x.Sel].(*types.Const); ok && c.Pkg() != nil && strings.HasPrefix(c.Pkg().Path(), p.ModPath) {
+							return c
+						}
+					}
+					return nil
+				}
+				op := be.Op
+				obj := constOf(be.Y)
+				if obj == nil {
+					if obj = constOf(be.X); obj == nil {
+						return true
+					}
+					op = mirror[op]
+				}
+				// where the bound itself falls: with the upper side (x >= K, x < K) or with the lower side (x > K, x <= K)
+				class := "x >= K / x < K"
+				if op == token.GTR || op == token.LEQ {
+					class = "x > K / x <= K"
+				}
+				sites[obj] = append(sites[obj], site{be.OpPos, class, enclosingFuncName(pkg, f, be.Pos())})
+				return true
+			})
+		}
+	}
+	n := 0
+	for obj, ss := range sites {
+		if len(ss) < 2 {
+			continue
+		}
+		count := map[string]int{}
+		for _, s := range ss {
+			count[s.op]++
+		}
+		major, best := "", 0
+		for op, c := range count {
+			if c > best || (c == best && op > major) {
+				major, best = op, c
+			}
+		}
+		for _, s := range ss {
+			n++
+			r.Check(s.op == major, rule, s.fn+"#"+obj.Name(), s.pos, "the bound falls on the same side as at the other sites ("+major+")", "this site puts the bound "+obj.Name()+" on the other side ("+s.op+") than the other sites ("+major+"): a value exactly at the bound is treated as over it by some stages and as under it by this one (listed with that score but not counted / not sent on)")
+		}
+	}
+	r.Floor(rule, "ordered comparisons against shared named bounds", n, 2)
+}
